@@ -185,16 +185,17 @@ type runConfig struct {
 }
 
 type configRun struct {
-	Name      string
-	Tags      string
-	UseCHA    bool
-	Packages  int
-	Functions int
-	Reachable int
-	CGNodes   int
-	Results   []*RuleResult
-	CtlFired  map[string]int
-	LoadErr   string
+	Name           string
+	Tags           string
+	UseCHA         bool
+	Packages       int
+	Functions      int
+	Reachable      int
+	CGNodes        int
+	Results        []*RuleResult
+	CtlFired       map[string]int
+	LoadErr        string
+	CtlUnavailable string
 }
 
 func hashKey(s string) string {
@@ -291,6 +292,16 @@ func runProperty(rc runConfig, prop *Property) int {
 		cr := &configRun{Name: cs.name, Tags: cs.tags, UseCHA: cs.cha, CtlFired: map[string]int{}}
 		runs = append(runs, cr)
 		m, err := Load(LoadOpts{RepoDir: rc.repoDir, Tags: cs.tags, Overlay: overlay, UseCHA: cs.cha})
+		ctlAvailable := true
+		if err != nil && len(overlay) > 0 {
+			// does the repository load on its own? then a positive control no longer compiles against it (a renamed
+			// helper, say): run the rules without controls - anchor floors still guard against vacuous passes - and say so.
+			if m2, err2 := Load(LoadOpts{RepoDir: rc.repoDir, Tags: cs.tags, UseCHA: cs.cha}); err2 == nil {
+				fmt.Printf("NOTE: positive controls unavailable in configuration %s (they no longer compile against the tree: %v); rules run without them\n", cs.name, err)
+				cr.CtlUnavailable = err.Error()
+				m, err, ctlAvailable = m2, nil, false
+			}
+		}
 		if err != nil {
 			cr.LoadErr = err.Error()
 			emit("FRAMEWORK", "load:"+cs.name, map[string]any{"verdict": "undecided", "detail": "cannot load/type-check the repository (or a positive control no longer compiles against it): " + err.Error()})
@@ -348,7 +359,7 @@ func runProperty(rc runConfig, prop *Property) int {
 			if need == 0 {
 				need = len(r.Ctl)
 			}
-			if cr.CtlFired[rid] < need {
+			if ctlAvailable && cr.CtlFired[rid] < need {
 				res.undecided("positive-control", "-", fmt.Sprintf("rule %s flagged %d of %d positive controls", rid, cr.CtlFired[rid], need),
 					"the rule no longer recognises its own seeded violation")
 				o := res.Obligations[len(res.Obligations)-1]
@@ -428,6 +439,9 @@ func runProperty(rc runConfig, prop *Property) int {
 		ci := map[string]any{"config": cr.Name, "packages": cr.Packages, "functions_with_bodies": cr.Functions, "module_functions_reachable": cr.Reachable, "callgraph_nodes": cr.CGNodes}
 		if cr.LoadErr != "" {
 			ci["load_error"] = cr.LoadErr
+		}
+		if cr.CtlUnavailable != "" {
+			ci["positive_controls_unavailable"] = cr.CtlUnavailable
 		}
 		cfgInfo = append(cfgInfo, ci)
 	}
